@@ -6,6 +6,7 @@ package ix
 import (
 	"bytes"
 	"fmt"
+	"io"
 	"sort"
 
 	"github.com/biogo/hts/bam"
@@ -382,8 +383,43 @@ func (b *BAI) Unmapped() (uint64, bool)                           { return b.Idx
 func (b *BAI) Kind() string                                       { return "bai" }
 
 // ReadBAI parses a serialised BAI.
+// Fragment, when not empty, makes ReadBAI/ReadCSI/ReadTBX hand the bytes to
+// the library through a reader that returns at most Fragment[i%len] bytes on
+// its i-th call (index files are usually read through a decompressor, which
+// returns short counts at block ends).
+var Fragment []int
+
+type fragReader struct {
+	b []byte
+	i int
+}
+
+func (f *fragReader) Read(p []byte) (int, error) {
+	if len(f.b) == 0 {
+		return 0, io.EOF
+	}
+	n := len(p)
+	if c := Fragment[f.i%len(Fragment)]; c < n {
+		n = c
+	}
+	f.i++
+	if n > len(f.b) {
+		n = len(f.b)
+	}
+	copy(p, f.b[:n])
+	f.b = f.b[n:]
+	return n, nil
+}
+
+func source(data []byte) io.Reader {
+	if len(Fragment) == 0 {
+		return bytes.NewReader(data)
+	}
+	return &fragReader{b: data}
+}
+
 func ReadBAI(data []byte, refs []*sam.Reference) (*BAI, error) {
-	idx, err := bam.ReadIndex(bytes.NewReader(data))
+	idx, err := bam.ReadIndex(source(data))
 	if err != nil {
 		return nil, err
 	}
@@ -428,7 +464,7 @@ func (c *CSI) Unmapped() (uint64, bool)                           { return c.Idx
 func (c *CSI) Kind() string                                       { return "csi" }
 
 func ReadCSI(data []byte) (*CSI, error) {
-	idx, err := csi.ReadFrom(bytes.NewReader(data))
+	idx, err := csi.ReadFrom(source(data))
 	if err != nil {
 		return nil, err
 	}
@@ -473,7 +509,9 @@ func BuildTBX(s Spec, layout []bgzf.Chunk) (*TBX, error) {
 	return t, nil
 }
 
-func (t *TBX) Chunks(q Query) ([]bgzf.Chunk, error) { return t.Idx.Chunks(t.Names[q.Ref], q.Beg, q.End) }
+func (t *TBX) Chunks(q Query) ([]bgzf.Chunk, error) {
+	return t.Idx.Chunks(t.Names[q.Ref], q.Beg, q.End)
+}
 func (t *TBX) Write() ([]byte, error) {
 	var buf bytes.Buffer
 	err := tabix.WriteTo(&buf, t.Idx)
@@ -486,7 +524,7 @@ func (t *TBX) Unmapped() (uint64, bool)                           { return t.Idx
 func (t *TBX) Kind() string                                       { return "tabix" }
 
 func ReadTBX(data []byte, names []string) (*TBX, error) {
-	idx, err := tabix.ReadFrom(bytes.NewReader(data))
+	idx, err := tabix.ReadFrom(source(data))
 	if err != nil {
 		return nil, err
 	}
